@@ -322,7 +322,7 @@ fn pair_cfg() -> Cfg {
     Cfg { addr: DST, msg_types: vec![0x7E, 0x05], vendors: vec![(0, 0x1414, 4), (1, 0xDEADBEEF, 9)] }
 }
 
-fn c13_filter(d: &Diff, _h: &[Event]) -> bool {
+pub fn c13_filter(d: &Diff, _h: &[Event]) -> bool {
     matches!(d.aspect, Aspect::Eids | Aspect::Resp(0x01) | Aspect::Resp(0x02) | Aspect::Probe(0x01) | Aspect::Probe(0x02))
 }
 
@@ -647,7 +647,7 @@ fn sigma15(cfg: &Cfg) -> Vec<Event> {
     ]
 }
 
-fn c15_filter(d: &Diff, _h: &[Event]) -> bool {
+pub fn c15_filter(d: &Diff, _h: &[Event]) -> bool {
     matches!(d.aspect, Aspect::Resp(0x03) | Aspect::Resp(0x04) | Aspect::Resp(0x05) | Aspect::Probe(0x03) | Aspect::Probe(0x04) | Aspect::Probe(0x05))
 }
 
@@ -738,7 +738,7 @@ pub fn replay_c15(case: &Value) -> Result<ReplayOut, String> {
 // C14
 // ---------------------------------------------------------------------------
 
-fn c14_filter(d: &Diff, _h: &[Event]) -> bool {
+pub fn c14_filter(d: &Diff, _h: &[Event]) -> bool {
     matches!(d.aspect, Aspect::Resp(0x06) | Aspect::Probe(0x06))
 }
 
